@@ -5,6 +5,7 @@ import (
 	"encoding/json"
 	"fmt"
 	"net"
+	"reflect"
 	"strings"
 	"testing"
 	"time"
@@ -15,7 +16,7 @@ import (
 
 type c16Case struct {
 	Limit     int64  `json:"limit"` // configured ReadLimit (0 = default 8 MiB)
-	Sizes     []int  `json:"sizes"` // frame sizes in bytes (JSON text + newline)
+	Sizes     []int  `json:"sizes"` // frame sizes in bytes (JSON text + newline); a negative size is a refused frame of that many bytes
 	ReadChunk int    `json:"readChunk,omitempty"`
 	Coalesce  bool   `json:"coalesce"`      // all frames are in the pipe before the first Receive
 	Via       string `json:"via,omitempty"` // hook | listener (loopback TCP listener with the configured limit)
@@ -23,6 +24,7 @@ type c16Case struct {
 
 type c16Step struct {
 	Size     int    `json:"size"`
+	Refused  bool   `json:"refused,omitempty"` // well-formed JSON that is no valid envelope (unknown event): must be answered with an error, and costs nothing afterwards
 	Consumed int64  `json:"consumed"`
 	Accepted bool   `json:"accepted"`
 	Intact   bool   `json:"intact"`
@@ -42,6 +44,19 @@ func frameOfSize(i, size int) ([]byte, string) {
 	return b, pad
 }
 
+const c16RefusedBase = len(`{"id":"f000","from":"leak@example.com/i","method":"get","uri":"/leak","event":"q"}`) + 1
+
+// refusedFrameOfSize builds a line of exactly size bytes that is well-formed JSON but no valid envelope: the members before
+// the unknown event decode, the event does not. The decoder stays in step with the stream.
+func refusedFrameOfSize(i, size int) []byte {
+	if size < c16RefusedBase {
+		size = c16RefusedBase
+	}
+	pad := strings.Repeat("z", size-c16RefusedBase)
+	id := fmt.Sprintf("f%03d", i%1000)
+	return []byte(`{"id":"` + id + `","from":"leak@example.com/i","method":"get","uri":"/leak","event":"q` + pad + `"}` + "\n")
+}
+
 func effLimit(l int64) int64 {
 	if l == 0 {
 		return lime.DefaultReadLimit
@@ -53,7 +68,16 @@ func runC16(c *c16Case) ([]c16Step, string) {
 	var total int
 	var frames [][]byte
 	var pads []string
+	refused := make([]bool, len(c.Sizes))
 	for i, s := range c.Sizes {
+		if s < 0 {
+			f := refusedFrameOfSize(i, -s)
+			refused[i] = true
+			frames = append(frames, f)
+			pads = append(pads, "")
+			total += len(f)
+			continue
+		}
 		f, pad := frameOfSize(i, s)
 		frames = append(frames, f)
 		pads = append(pads, pad)
@@ -131,7 +155,7 @@ func runC16(c *c16Case) ([]c16Step, string) {
 	}
 	var steps []c16Step
 	for i := range frames {
-		st := c16Step{Size: len(frames[i])}
+		st := c16Step{Size: len(frames[i]), Refused: refused[i]}
 		var before int64
 		if counter != nil {
 			before = counter()
@@ -151,15 +175,20 @@ func runC16(c *c16Case) ([]c16Step, string) {
 			st.Err = err.Error()
 		default:
 			st.Accepted = true
-			if m, ok := e.(*lime.Message); ok {
+			if m, ok := e.(*lime.Message); ok && !refused[i] {
 				if td, ok := m.Content.(*lime.TextDocument); ok && string(*td) == pads[i] && m.ID == fmt.Sprintf("f%03d", i%1000) {
-					st.Intact = true
+					// and nothing else: compare the generic JSON forms
+					var got, want interface{}
+					gb, _ := json.Marshal(m)
+					_ = json.Unmarshal(gb, &got)
+					_ = json.Unmarshal(frames[i], &want)
+					st.Intact = reflect.DeepEqual(got, want)
 				}
 			}
 		}
 		steps = append(steps, st)
-		if !st.Accepted {
-			break // behaviour after a Receive error is not specified
+		if !st.Accepted && !(refused[i] && int64(len(frames[i])) <= effLimit(c.Limit)) {
+			break // behaviour after a Receive error is not specified, except after a refused envelope within the limit
 		}
 	}
 	return steps, ""
@@ -214,6 +243,13 @@ func judgeC16(c *c16Case, steps []c16Step, note string, o *Outcome) {
 		if c.Via != "listener" && st.Consumed > L {
 			o.Fail("C16/receive-consumed-more-than-limit/"+cl, "Receive #%d consumed %d bytes from the connection, limit %d (frame %d bytes)", i, st.Consumed, L, st.Size)
 		}
+		if st.Refused {
+			o.Class("refused-frame")
+			if st.Accepted {
+				o.Fail("C16/refused-frame-returned", "frame #%d (an unknown event) was returned as an envelope", i)
+			}
+			continue
+		}
 		if int64(st.Size) > 2*L && st.Accepted {
 			o.Fail("C16/oversized-accepted/"+cl+"/"+pos, "a frame of %d bytes was accepted with limit %d", st.Size, L)
 		}
@@ -265,6 +301,10 @@ func TestC16Sweep(t *testing.T) {
 						run(&c16Case{Limit: L, Sizes: []int{a, b}, ReadChunk: chunk, Coalesce: coalesce})
 					}
 					run(&c16Case{Limit: L, Sizes: []int{int(L), int(L), 60, int(L) - 1, int(L) / 2, int(L), a}, ReadChunk: chunk, Coalesce: coalesce})
+					// refused envelopes (well-formed JSON, unknown event) before it: they are data that preceded it, no more
+					run(&c16Case{Limit: L, Sizes: []int{-c16RefusedBase, a}, ReadChunk: chunk, Coalesce: coalesce})
+					run(&c16Case{Limit: L, Sizes: []int{-int(L) / 2, -int(L) / 2, -int(L) / 2, 60, a}, ReadChunk: chunk, Coalesce: coalesce})
+					run(&c16Case{Limit: L, Sizes: []int{60, -(int(L) - 1), a, -int(L), 60}, ReadChunk: chunk, Coalesce: coalesce})
 				}
 			}
 		}
@@ -297,7 +337,9 @@ func TestC16(t *testing.T) {
 		bs := boundarySizes(L)
 		for i := 0; i < n; i++ {
 			var s int
-			switch rapid.IntRange(0, 9).Draw(rt, "how") {
+			switch rapid.IntRange(0, 11).Draw(rt, "how") {
+			case 10, 11:
+				s = -rapid.IntRange(c16RefusedBase, int(L)).Draw(rt, "refused")
 			case 0, 1, 2, 3:
 				s = rapid.IntRange(c16Base, int(L)).Draw(rt, "inlimit")
 			case 4, 5, 6:
@@ -307,7 +349,7 @@ func TestC16(t *testing.T) {
 			default:
 				s = rapid.IntRange(int(2*L)+1, int(12*L)).Draw(rt, "oversized")
 			}
-			if s < c16Base {
+			if s >= 0 && s < c16Base {
 				s = c16Base
 			}
 			c.Sizes = append(c.Sizes, s)
